@@ -604,6 +604,12 @@ fn fault_error(a: &Action) -> Option<Resp> {
 	match a {
 		Action::Acme(t) => Some(Resp::problem(t, status_for(t), "injected")),
 		Action::AcmeUnknownType => Some(Resp::problem("somethingBrandNew", 400, "injected")),
+		Action::AcmeNoNonce(t) => {
+			let mut r = Resp::problem(t, status_for(t), "injected, no nonce attached");
+			r.with_nonce = false;
+			Some(r)
+		}
+		Action::AcmeLongDetail(t, shift) => Some(Resp::problem(t, status_for(t), &format!("{}{}", "x".repeat(*shift), "\u{1D11E}\u{20AC}\u{E9}".repeat(180)))),
 		Action::AcmeNoType => {
 			let mut r = Resp::json(400, json!({"detail": "injected problem without a type", "status": 400}));
 			r.ctype = "application/problem+json";
@@ -925,9 +931,10 @@ fn process(g: &mut CaState, idx: usize, head: &Head, path: &str, pos: &Pos, oid:
 					g.plan.offer.clone()
 				};
 				let tl = g.plan.token_len;
+				let st0 = if g.plan.chall_processing.contains(v) { "processing" } else { "pending" };
 				let challenges = types
 					.iter()
-					.map(|ty| ChallRec { ty: ty.clone(), token: g.token(tl), status: "pending".into(), posted_req: None })
+					.map(|ty| ChallRec { ty: ty.clone(), token: g.token(tl), status: st0.into(), posted_req: None })
 					.collect();
 				let initial = g.plan.authz_initial.get(v).cloned().unwrap_or_else(|| "pending".to_string());
 				authz.push(AuthzRec {
@@ -1029,7 +1036,7 @@ fn process(g: &mut CaState, idx: usize, head: &Head, path: &str, pos: &Pos, oid:
 			let Some(ci) = a.challenges.iter().position(|c| c.ty == ty) else {
 				return Resp::problem("malformed", 404, "no such challenge");
 			};
-			if a.status == "pending" && a.challenges[ci].status == "pending" {
+			if a.status == "pending" && (a.challenges[ci].status == "pending" || (a.challenges[ci].status == "processing" && a.challenges[ci].posted_req.is_none())) {
 				a.challenges[ci].status = "processing".into();
 				a.challenges[ci].posted_req = Some(idx);
 				if a.polls_left == 0 {
@@ -1179,6 +1186,20 @@ fn process(g: &mut CaState, idx: usize, head: &Head, path: &str, pos: &Pos, oid:
 			expect_empty(g, "certificate download");
 			if let Some(Action::NonPemBody) = fault {
 				return Resp { status: 200, ctype: "text/html", body: b"<html><body>maintenance</body></html>".to_vec(), json: None, location: None, with_nonce: true };
+			}
+			if let (Some(Action::DamagedChain), Some(pem)) = (fault, g.orders[oid].issued_pem.clone()) {
+				// keep the leaf intact, break the base64 of whatever follows (or append a broken block)
+				let txt = String::from_utf8_lossy(&pem).to_string();
+				let end = txt.find("-----END CERTIFICATE-----").map(|i| i + 26).unwrap_or(txt.len());
+				let (leaf, rest) = txt.split_at(end.min(txt.len()));
+				let mut broken = if rest.trim().is_empty() { "-----BEGIN CERTIFICATE-----\nMIIB\n-----END CERTIFICATE-----\n".to_string() } else { rest.to_string() };
+				if let Some(i) = broken.find("\nMII") {
+					broken.replace_range(i + 1..i + 9, "!!*broken");
+				} else {
+					broken = "-----BEGIN CERTIFICATE-----\n!!*broken*!!\n-----END CERTIFICATE-----\n".to_string();
+				}
+				let body = format!("{leaf}{broken}").into_bytes();
+				return Resp { status: 200, ctype: "application/pem-certificate-chain", body, json: None, location: None, with_nonce: true };
 			}
 			match g.orders[oid].issued_pem.clone() {
 				Some(pem) => {
